@@ -24,7 +24,7 @@ func Windowed
   requires size >= 1
   ensures[count]  len(result) == ite(len(slice) < size, 0, len(slice) - size + 1)
   ensures[pieces] forall k :: 0 <= k && k < len(result) ==> window(result[k], slice, k, k+size)
-  loop 0 invariant 0 <= i && i <= lim && len(windows) == lim && lim == len(slice) - size + 1
+  loop 0 invariant 0 <= i && i <= max(lim, 0) && len(windows) == lim && lim == len(slice) - size + 1
   loop 0 invariant forall k :: 0 <= k && k < i ==> window(windows[k], slice, k, k+size)
   loop 0 decreases lim - i
 
@@ -32,7 +32,7 @@ func Pairs
   property C13
   ensures[count] len(result) == ite(len(slice) < 2, 0, len(slice) - 1)
   ensures[pairs] forall k :: 0 <= k && k < len(result) ==> result[k][0] == slice[k] && result[k][1] == slice[k+1]
-  loop 0 invariant 0 <= i && i <= lim && len(pairs) == lim && lim == len(slice) - 1 && fresh(pairs)
+  loop 0 invariant 0 <= i && i <= max(lim, 0) && len(pairs) == lim && lim == len(slice) - 1 && fresh(pairs)
   loop 0 invariant forall k :: 0 <= k && k < i ==> pairs[k][0] == slice[k] && pairs[k][1] == slice[k+1]
   loop 0 decreases lim - i
 
@@ -51,7 +51,7 @@ func WindowedFunc
   requires size >= 1
   ensures[count]  loglen(callback) == ite(len(slice) < size, 0, len(slice) - size + 1)
   ensures[pieces] forall k :: 0 <= k && k < loglen(callback) ==> window(logarg(callback, 0, k), slice, k, k+size)
-  loop 0 invariant 0 <= i && i <= lim && lim == len(slice) - size + 1 && loglen(callback) == i
+  loop 0 invariant 0 <= i && i <= max(lim, 0) && lim == len(slice) - size + 1 && loglen(callback) == i
   loop 0 invariant forall k :: 0 <= k && k < i ==> window(logarg(callback, 0, k), slice, k, k+size)
   loop 0 decreases lim - i
 
@@ -59,7 +59,7 @@ func PairsFunc
   property C13
   ensures[count] loglen(callback) == ite(len(slice) < 2, 0, len(slice) - 1)
   ensures[pairs] forall k :: 0 <= k && k < loglen(callback) ==> logarg(callback, 0, k) == slice[k] && logarg(callback, 1, k) == slice[k+1]
-  loop 0 invariant 0 <= i && i <= lim && lim == len(slice) - 1 && loglen(callback) == i
+  loop 0 invariant 0 <= i && i <= max(lim, 0) && lim == len(slice) - 1 && loglen(callback) == i
   loop 0 invariant forall k :: 0 <= k && k < i ==> logarg(callback, 0, k) == slice[k] && logarg(callback, 1, k) == slice[k+1]
   loop 0 decreases lim - i
 
